@@ -6,7 +6,7 @@ ID = "C16"
 GEN = []
 THEOREMS = ["C16_global_flag", "C16_default_flag", "C16_unflagged_writes_current", "C16_for_var_local",
             "C16_each_var_restored", "C16_params_local", "C16_block_keeps_outer", "C16_refuted_inner_update",
-            "C16_refuted_soft_decl", "C16_refuted_each_alias", "C16_main_partial"]
+            "C16_refuted_soft_decl", "C16_refuted_each_alias", "C16_main_partial", "C16_main_partial_if"]
 COQ_HEADER = ("From Coq Require Import List ZArith.\nFrom RV Require Import Model.EvScope Run.C16.\n"
               "Import ListNotations.\nLocal Open Scope Z_scope.")
 RUN_EXPR = "Run.C16.run"
@@ -411,9 +411,9 @@ LEVEL_TEXT = ("proof: rule lemmas about the faithful model of Scope::set_variabl
               "states/programs (!global writes the root scope and nothing else; !default assigns iff undefined or null; @for "
               "variables and mixin parameters never reach the caller's scopes; @each variables are restored; a block never changes "
               "an enclosing local scope - which is the refuted clause F23); refuted witnesses for the three known classes; "
-              "C16_main_partial: model = reference interpreter for every program without @if/@each whose reference run has no "
-              "known-class event; the model is tied to rsass by exact correspondence on every generated program")
+              "C16_main_partial_if: model = reference interpreter for every program without @each (rules, @media, @if/@else, @for, "
+              "@while, mixins, all flags) whose reference run has no known-class event; the model is tied to rsass by exact correspondence on every generated program")
 LEVEL_NOTE = ("trusted: Coq kernel+vm_compute, the harness, Spec/SassScope.v, the SCSS printer; the main equivalence is partial "
-              "(programs containing @if/@each are covered by correspondence + class-free agreement checks on every run, not by proof); "
+              "(programs containing @each are covered by correspondence + class-free agreement checks on every run, not by proof); "
               "known findings F23 (inner update), each/if leak, top-level @each alias")
 TECHNIQUE = "Coq proof (invariants over two interpreters) + differential correspondence on generated SCSS programs"
